@@ -5,9 +5,9 @@ import (
 	"crypto"
 	"crypto/rand"
 	"crypto/sha256"
-	"time"
 	"crypto/x509"
 	"math/big"
+	"time"
 
 	"github.com/foxboron/go-uefi/internal/vsym"
 )
@@ -46,6 +46,9 @@ func VC04_VerifySound() {
 	vsym.Assume(serial[0] != 0)
 	cert := vsym.Cert(signer, serial)
 	issuer := cert.RawIssuer
+	// translator validation: the certificate model's issuer is the DER name the native test CA has
+	vsym.AssertBytesEq(issuer[:13], []byte{0x30, 0x12, 0x31, 0x10, 0x30, 0x0e, 0x06, 0x03, 0x55, 0x04, 0x03, 0x13, 0x07}, "model issuer = native issuer layout")
+	vsym.Assert(len(issuer) == 20, "model issuer = native issuer length")
 
 	// an honest signature exists
 	honestContent := vsym.BytesN("honest.content", 4)
